@@ -7,6 +7,7 @@ import (
 	"regexp"
 	"strings"
 	"testing"
+	"time"
 
 	gi "vws/gmarsi"
 	gp "vws/gmarsp"
@@ -162,7 +163,7 @@ type asmRun struct {
 	rd       *simrt.Reader
 }
 
-const asmMaxTicks = 6_000_000
+const asmMaxTicks = 2_000_000
 const asmMaxSteps = 120_000
 
 // asmMaxSends is the fixed bound on tokens sent through the assembler's
@@ -471,6 +472,25 @@ func caseAsm(t *testing.T, tp *simrt.Tape, c *Ctx) (res Result) {
 	if res.Discard != "" {
 		return
 	}
+	if !baseOK {
+		return // already a violation; further schedules of a broken case add cost, not information
+	}
+	// second fixed schedule: highest-numbered runnable task first (every
+	// producer runs ahead of its consumer as far as it can), reversed map order
+	pf := runAsm(t, delivered, simrt.ReaderPlan{ErrAt: -1}, simrt.MaxTape(), cfg)
+	pfOK := checkAsmRun(&res, pf, &tc, cfgP, "producer-first")
+	if res.Discard != "" {
+		return
+	}
+	if baseOK && pfOK && ((base.err == nil) != (pf.err == nil) || warIString(base.w) != warIString(pf.w)) {
+		res.add("C14", "C14 nondeterminism assembly result depends on schedule, map order or read chunking", map[string]any{
+			"baseline_err": fmt.Sprint(base.err), "variant_err": fmt.Sprint(pf.err), "baseline": warIString(base.w), "variant": warIString(pf.w), "variant_schedule": "producer-first"})
+		res.add("C05", "C05 nondeterminism assembly result depends on schedule, map order or read chunking", map[string]any{
+			"baseline_err": fmt.Sprint(base.err), "variant_err": fmt.Sprint(pf.err), "baseline": warIString(base.w), "variant": warIString(pf.w), "variant_schedule": "producer-first"})
+	}
+	if !pfOK {
+		return
+	}
 	// variant: the drawn reader behaviour, schedule and map order
 	v := runAsm(t, delivered, plan, tp, cfg)
 	vOK := checkAsmRun(&res, v, &tc, cfgP, "variant")
@@ -497,11 +517,28 @@ func caseAsm(t *testing.T, tp *simrt.Tape, c *Ctx) (res Result) {
 		}
 	}
 	// instrumentation transparency: the untouched copy, real goroutines
-	if baseOK && vOK && len(res.Viol) == 0 && tp.Draw("transparency", 8) == 0 {
-		pw, perr := gp.CompileWarrior(bytes.NewReader(delivered), cfgP)
+	if baseOK && vOK && pfOK && len(res.Viol) == 0 && tp.Draw("transparency", 8) == 0 {
+		type pres struct {
+			w   gp.WarriorData
+			err error
+		}
+		ch := make(chan pres, 1)
+		go func() {
+			w, err := gp.CompileWarrior(bytes.NewReader(delivered), cfgP)
+			ch <- pres{w, err}
+		}()
 		res.stat("transparency-checks", 1)
-		if (perr == nil) != (base.err == nil) || warPString(pw) != warIString(base.w) {
-			res.Infra = fmt.Sprintf("instrumentation transparency: pristine (%v,%s) vs instrumented (%v,%s)", perr, warPString(pw), base.err, warIString(base.w))
+		select {
+		case p := <-ch:
+			if (p.err == nil) != (base.err == nil) || warPString(p.w) != warIString(base.w) {
+				res.Infra = fmt.Sprintf("instrumentation transparency: pristine (%v,%s) vs instrumented (%v,%s)", p.err, warPString(p.w), base.err, warIString(base.w))
+			}
+		case <-time.After(15 * time.Second):
+			// the instrumented copy terminated under both explored schedules,
+			// the untouched copy under the Go runtime's schedule does not
+			res.add("C05", "C05 no-progress untouched copy does not return under the Go runtime scheduler", map[string]any{"note": "instrumented copy terminated under both explored schedules"})
+			res.add("C14", "C14 nondeterminism untouched copy does not return under the Go runtime scheduler", map[string]any{})
+			res.Abort = true
 		}
 	}
 	return
